@@ -243,7 +243,13 @@ def run_contracts(ctx, contracts, registry, workloads=(), concrete_env=None, mon
         mon = Monitor(list(contracts) + list(monitor_extra), concrete_env=concrete_env)
         with mon:
             for w in workloads:
-                w()
+                try:
+                    w()
+                except Exception as e:  # noqa: BLE001
+                    # a workload is a fixed script that runs cleanly on the tree the contracts were written for; an exception that escapes it comes from
+                    # the (changed) library.  It is not a verdict by itself - the monitored calls made so far, the obligations and the bounded stand-in
+                    # decide - but it must not crash the checker either.
+                    ctx.notes.append(f"monitor: a workload stopped early with {type(e).__name__}: {str(e)[:200]}")
         with ctx.bounded("contract-monitor", rule="every call of a function under contract made by the deterministic workloads (vf/pyvc/workload.py) "
                          "is checked against its requires/ensures/raises clauses evaluated on the real objects; distinct = (function, call ordinal)",
                          bound="workload size fixed; quantifiers range over -2..max container size+2") as b:
